@@ -94,6 +94,9 @@ func (h *WebhookHandler) handleReviewRequest(crdName string, request *v1.Convers
 		return nil, fmt.Errorf("ConversionReview handler is not defined")
 	}
 
+	// The event handler replaces request.Objects while it walks the chain.
+	requestedCount := len(request.Objects)
+
 	conversionResponse, err := h.Manager.EventHandlerFn(crdName, request)
 	if err != nil {
 		return nil, err
@@ -103,8 +106,8 @@ func (h *WebhookHandler) handleReviewRequest(crdName string, request *v1.Convers
 		return nil, errors.New(conversionResponse.FailedMessage)
 	}
 
-	if len(request.Objects) != len(conversionResponse.ConvertedObjects) {
-		return nil, fmt.Errorf("hook returned %d objects instead of %d", len(conversionResponse.ConvertedObjects), len(request.Objects))
+	if requestedCount != len(conversionResponse.ConvertedObjects) {
+		return nil, fmt.Errorf("hook returned %d objects instead of %d", len(conversionResponse.ConvertedObjects), requestedCount)
 	}
 
 	return &v1.ConversionResponse{
